@@ -195,4 +195,30 @@ def run(ctx):
     if E.unknown_externals:
         r.undecided('external contracts', msg=f'externals without contract in the cone: {sorted(E.unknown_externals)}')
     r.require_min(6)
+    # ---------------- R09e the partition step refuses what is not a host-order fragment
+    r = ctx.rule('R09e', 'get_fragment_partition: a buffer whose index helper answers "not a fragment" (negative) ends the call with an error',
+                 'the header loop lets opposite-endian headers through on purpose; this test is what keeps them (and non-fragments) out of decode / reconstruct')
+    from ..oblig import simulate as _sim9
+    gp = P.fn('get_fragment_partition')
+    idxc = [i for i in gp.insts() if i.op == 'call' and i.callee == '@get_fragment_idx' and i.res]
+    if not idxc:
+        raise AnalysisBroken('anchor vanished: get_fragment_partition does not read the fragment index')
+    for c in idxc:
+        prob = None
+        for kind, val, trail in _sim9(gp, c, -1):
+            if kind == 'reexec':
+                prob = 'the loop goes on to the next fragment (the buffer is treated as missing)'
+            elif kind == 'ret' and (val is None or val >= 0):
+                prob = prob or f'the function can return {val}'
+            elif kind == 'limit':
+                prob = prob or 'undecided'
+        inst = f'get_fragment_partition: negative index at line {c.line} => error return'
+        if prob is None:
+            r.ok(inst, func=gp.name, loc=c.loc)
+        elif prob == 'undecided':
+            r.undecided(inst, loc=c.loc, msg='step limit')
+        else:
+            r.fail(inst, func=gp.name, sig='negative fragment index not refused: ' + prob[:50], loc=c.loc,
+                   msg=f'when get_fragment_idx reports that the buffer is not a host-order fragment, {prob}: decode and reconstruct then accept a stripe that contains such a header')
+    r.require_min(1)
     ctx.borrow('c10', ['R10d'], 'the metadata checksum is accepted when it equals the standard or the historical CRC: the historical function must be the historical function')
